@@ -112,6 +112,11 @@ def run_shard(shard, ctx, tier):
                         continue
                     for texts in itertools.product(range(len(LINE_TEXTS)), repeat=total):
                         guarded_check(mod, {'structure': {'boxes': list(boxes), 'counts': list(cnt), 'texts': list(texts)}}, ctx)
+        # pages with more blocks / lines than one digit can number
+        nt = len(LINE_TEXTS)
+        guarded_check(mod, {'structure': {'boxes': [1], 'counts': [12], 'texts': [(3 * k + 1) % nt for k in range(12)]}}, ctx)
+        guarded_check(mod, {'structure': {'boxes': [k % len(REGION_BOXES) for k in range(12)], 'counts': [1 + (k % 2) for k in range(12)],
+                                          'texts': [(5 * k + 2) % nt for k in range(18)]}}, ctx)
     elif shard['kind'] == 'long':
         for T in LONG_T:
             for place in ('start', 'middle', 'end'):
@@ -455,6 +460,8 @@ def check_structure(case, ctx):
         ctx.outcome(('structure', len(regs), sum(len(b['lines']) for b in doc['blocks'])))
         if len(regs) == 2:
             ctx.nontrivial(('structure', tuple(st['boxes']), tuple(st['counts']), tuple(st['texts'])), 'two-region-pages')
+        if len(regs) > 9 or max(st['counts'], default=0) > 9:
+            ctx.tag('more-than-nine-blocks-or-lines')
 
 
 LONG_T = [499, 501, 999, 1001, 1100, 2100]
@@ -569,7 +576,7 @@ def describe(tier):
         'assumptions': ['print space compared exactly for integer region coordinates, within 2 px for fractional ones (values are truncated separately)',
                         'a line counts as dropped iff the confidence the export stored on it is below min_line_confidence; that confidence must be > 0.99 for one-hot-like posteriors and <= 0.5 for near-uniform or unalignable ones'],
         'min_nontrivial': 100,
-        'required_tags': ['export-history-on-one-page', 'lines-with-more-than-1000-frames', 'mixed-script-pages', 'multi-word-aligned', 'two-region-pages', 'arabic-line-exported', 'order-conversion-reorders',
+        'required_tags': ['more-than-nine-blocks-or-lines', 'export-history-on-one-page', 'lines-with-more-than-1000-frames', 'mixed-script-pages', 'multi-word-aligned', 'two-region-pages', 'arabic-line-exported', 'order-conversion-reorders',
                           'non-ascii-or-tab-white-space', 'fallback-branch', 'line-dropped-by-confidence-filter',
                           'print-space-not-reaching-page-edge'],
     }
